@@ -391,6 +391,23 @@ Theorem array_history_refines nv ops :
     aspec_run (sinit nv) ops = aobs_trace (arun (ainit nv) ops).
 Proof. rewrite <- aabs_init. apply arun_refines. apply ainv_init. Qed.
 
+(* the specification proper (aspec_ok: nothing is demanded of remove(index) with index >= size()) holds of every
+   history of the model; what the model - the code - does on such a call is a statement about the model only *)
+Lemma aspec_run_ok : forall ops s, aspec_ok s ops (aspec_run s ops).
+Proof.
+  induction ops as [|op t IH]; intros s; cbn [aspec_run]; [constructor|].
+  destruct (aspec s op) as [s1 r] eqn:E. constructor; [intros _; exact E|apply IH].
+Qed.
+
+Theorem array_history_refines_text nv ops : aspec_ok (sinit nv) ops (aobs_trace (arun (ainit nv) ops)).
+Proof. rewrite <- array_history_refines. apply aspec_run_ok. Qed.
+
+Lemma a_remove_idx_beyond (k : nat) (a : marr) : (length (items a) <= k)%nat -> a_remove_idx k a = a.
+Proof.
+  intros H. unfold a_remove_idx, asize.
+  destruct (Z.of_nat k <? Z.of_nat (length (items a))) eqn:E; [apply Z.ltb_lt in E; lia|reflexivity].
+Qed.
+
 (* capacity() >= size() and the shape of the capacity, in every reachable state *)
 Theorem array_history_capacity nv ops :
     Forall (fun wr => forall i, asize (aget i (fst wr)) <= cap (aget i (fst wr))
